@@ -2,6 +2,7 @@ package rules
 
 import (
 	"fmt"
+	"go/constant"
 	"go/token"
 	"go/types"
 	"sort"
@@ -91,15 +92,24 @@ func checkC19(c *Ctx) {
 						}
 						c.R.Fn(c.fname(f))
 						key := fmt.Sprintf("prune of a child in %s", c.fname(f))
-						seesPayload, seesChildren := false, false
+						// every way the guarding condition can hold must have tested both fields
+						alts := [][]nodeTest{nil}
 						for _, cc := range controllingConds(b, nil) {
-							t := core.Term(cc.cond)
-							if strings.Contains(t, "builtin:len(") && strings.Contains(t, ")."+payload) {
-								seesPayload = true
+							alts = crossAlts(alts, c.nodeAlts(cc.cond, cc.pol, nil, isNode, 2))
+						}
+						seesPayload, seesChildren := len(alts) > 0, len(alts) > 0
+						for _, alt := range alts {
+							p, ch := false, false
+							for _, t := range alt {
+								if t.field == payload && t.class != "OTHER" {
+									p = true
+								}
+								if t.field == children && t.class != "OTHER" {
+									ch = true
+								}
 							}
-							if strings.Contains(t, "builtin:len(") && strings.Contains(t, ")."+children) {
-								seesChildren = true
-							}
+							seesPayload = seesPayload && p
+							seesChildren = seesChildren && ch
 						}
 						switch {
 						case seesPayload && seesChildren:
@@ -113,17 +123,51 @@ func checkC19(c *Ctx) {
 						}
 					}
 				}
-				// R3: conditions on the receiver's own payload
-				if iff, ok := b.Instrs[len(b.Instrs)-1].(*ssa.If); ok && f.Signature.Recv() != nil && isNode(f.Signature.Recv().Type()) {
-					t := core.Term(iff.Cond)
-					for strings.HasPrefix(t, "!(") && strings.HasSuffix(t, ")") {
-						t = t[2 : len(t)-1] // the atom, whatever branch the code hangs on it
+				// R3: conditions on the receiver's own payload (directly, or through a predicate method of the node)
+				var tested []ssa.Value
+				switch t := b.Instrs[len(b.Instrs)-1].(type) {
+				case *ssa.If:
+					tested = append(tested, t.Cond)
+				case *ssa.Return:
+					if len(t.Results) == 1 {
+						if bt, isB := t.Results[0].Type().Underlying().(*types.Basic); isB && bt.Kind() == types.Bool {
+							tested = append(tested, t.Results[0])
+						}
 					}
-					if strings.Contains(t, "(*P0)."+payload) && !strings.Contains(t, "Children") {
-						predTerms[c.fname(f)] = append(predTerms[c.fname(f)], t)
+				}
+				for _, tv := range tested {
+					if f.Signature.Recv() == nil || !isNode(f.Signature.Recv().Type()) || len(f.Params) == 0 {
+						break
+					}
+					ts := c.nodeTests(tv, isNode, 2)
+					onlyOwnPayload := len(ts) > 0
+					for _, t := range ts {
+						if t.field != payload || deepStripLocal(t.base) != ssa.Value(f.Params[0]) {
+							onlyOwnPayload = false
+						}
+					}
+					if onlyOwnPayload {
+						for _, t := range ts {
+							predTerms[c.fname(f)] = append(predTerms[c.fname(f)], t.class)
+						}
 					}
 				}
 			}
+		}
+		// a nil test next to a length test is the length test (a nil slice has length 0)
+		for n, ts := range predTerms {
+			set := map[string]bool{}
+			for _, t := range ts {
+				set[t] = true
+			}
+			if set["LEN0"] {
+				delete(set, "NIL")
+			}
+			var out []string
+			for t := range set {
+				out = append(out, t)
+			}
+			predTerms[n] = out
 		}
 		// sibling agreement
 		var names []string
@@ -183,4 +227,256 @@ func (c *Ctx) nilGuardedMap(f *ssa.Function, fa *ssa.FieldAddr, at ssa.Instructi
 		}
 	}
 	return false
+}
+
+
+// nodeTest is one elementary test a condition applies to a field of a trie node.
+type nodeTest struct {
+	base  ssa.Value // the node
+	field string
+	class string // LEN0: decides len(field) == 0 (any spelling); NIL: decides field == nil; OTHER
+}
+
+// deepStripLocal strips conversions and cells without leaving the function.
+func deepStripLocal(v ssa.Value) ssa.Value { return core.Strip(v) }
+
+// nodeTests lists the elementary tests on node fields that make up the boolean value cond: comparisons of len(n.f) with
+// a constant, nil tests of n.f, negations, the operands of && / || (phi), and — depth levels deep — the tests made by a
+// boolean method of the node called on it (n.empty()), re-based on the node passed.
+func (c *Ctx) nodeTests(cond ssa.Value, isNode func(types.Type) bool, depth int) []nodeTest {
+	var out []nodeTest
+	seen := map[ssa.Value]bool{}
+	fieldOf := func(v ssa.Value) (*ssa.FieldAddr, bool) {
+		ld, ok := v.(*ssa.UnOp)
+		if !ok || ld.Op != token.MUL {
+			return nil, false
+		}
+		fa, ok := ld.X.(*ssa.FieldAddr)
+		if !ok || !isNode(fa.X.Type()) {
+			return nil, false
+		}
+		return fa, true
+	}
+	var walk func(v ssa.Value, rebase ssa.Value, d int)
+	walk = func(v ssa.Value, rebase ssa.Value, d int) {
+		if v == nil || seen[v] {
+			return
+		}
+		seen[v] = true
+		add := func(fa *ssa.FieldAddr, class string) {
+			base := fa.X
+			if rebase != nil {
+				if p, isP := core.Strip(base).(*ssa.Parameter); isP && paramIdx(p) == 0 {
+					base = rebase
+				}
+			}
+			out = append(out, nodeTest{base: base, field: fieldNameOf(fa.X.Type(), fa.Field), class: class})
+		}
+		switch x := v.(type) {
+		case *ssa.UnOp:
+			if x.Op == token.NOT {
+				walk(x.X, rebase, d)
+			}
+		case *ssa.Phi:
+			for _, e := range x.Edges {
+				walk(e, rebase, d)
+			}
+			// the conditions that select among the edges (a && b: a is tested by the branch, b is the edge value)
+			for _, pred := range x.Block().Preds {
+				if iff, ok := pred.Instrs[len(pred.Instrs)-1].(*ssa.If); ok {
+					walk(iff.Cond, rebase, d)
+				}
+			}
+		case *ssa.BinOp:
+			for _, pair := range [][2]ssa.Value{{x.X, x.Y}, {x.Y, x.X}} {
+				k, isK := pair[1].(*ssa.Const)
+				if !isK {
+					continue
+				}
+				if k.Value == nil {
+					if fa, ok := fieldOf(pair[0]); ok && (x.Op == token.EQL || x.Op == token.NEQ) {
+						add(fa, "NIL")
+					}
+					continue
+				}
+				cl, isCall := pair[0].(*ssa.Call)
+				if !isCall || core.CallOf(cl).Builtin() != "len" {
+					continue
+				}
+				fa, ok := fieldOf(cl.Call.Args[0])
+				if !ok {
+					continue
+				}
+				kv, okK := constInt(k)
+				if !okK {
+					add(fa, "OTHER")
+					continue
+				}
+				// truth table of the comparison at len = 0, 1, 2
+				op := x.Op
+				if pair[0] == x.Y { // const OP len  ==  len OP' const
+					op = map[token.Token]token.Token{token.LSS: token.GTR, token.GTR: token.LSS, token.LEQ: token.GEQ, token.GEQ: token.LEQ, token.EQL: token.EQL, token.NEQ: token.NEQ}[op]
+				}
+				tt := ""
+				for _, n := range []int64{0, 1, 2} {
+					var r bool
+					switch op {
+					case token.EQL:
+						r = n == kv
+					case token.NEQ:
+						r = n != kv
+					case token.LSS:
+						r = n < kv
+					case token.LEQ:
+						r = n <= kv
+					case token.GTR:
+						r = n > kv
+					case token.GEQ:
+						r = n >= kv
+					}
+					if r {
+						tt += "T"
+					} else {
+						tt += "F"
+					}
+				}
+				if tt == "TFF" || tt == "FTT" {
+					add(fa, "LEN0")
+				} else {
+					add(fa, "OTHER")
+				}
+			}
+		case *ssa.Call:
+			g := x.Call.StaticCallee()
+			if d <= 0 || g == nil || g.Pkg == nil || !c.P.IsModPkg(g.Pkg.Pkg) || g.Signature.Recv() == nil || !isNode(g.Signature.Recv().Type()) || len(x.Call.Args) == 0 {
+				return
+			}
+			if g.Signature.Results().Len() != 1 {
+				return
+			}
+			if b, isB := g.Signature.Results().At(0).Type().Underlying().(*types.Basic); !isB || b.Kind() != types.Bool {
+				return
+			}
+			rb := x.Call.Args[0]
+			if rebase != nil {
+				if p, isP := core.Strip(rb).(*ssa.Parameter); isP && paramIdx(p) == 0 {
+					rb = rebase
+				}
+			}
+			for _, bb := range g.Blocks {
+				switch t := bb.Instrs[len(bb.Instrs)-1].(type) {
+				case *ssa.If:
+					walk(t.Cond, rb, d-1)
+				case *ssa.Return:
+					for _, r := range t.Results {
+						walk(r, rb, d-1)
+					}
+				}
+			}
+		}
+	}
+	walk(cond, nil, depth)
+	return out
+}
+
+
+// crossAlts is the conjunction of two disjunctions of test sets.
+func crossAlts(a, b [][]nodeTest) [][]nodeTest {
+	var out [][]nodeTest
+	for _, x := range a {
+		for _, y := range b {
+			if len(out) > 64 {
+				return out
+			}
+			z := append(append([]nodeTest{}, x...), y...)
+			out = append(out, z)
+		}
+	}
+	return out
+}
+
+// nodeAlts lists the alternative ways the boolean value v can take the value want, each as the set of elementary
+// node-field tests made on that way: a && b is one alternative testing both, a || b two alternatives; a boolean method
+// of the node (n.empty(), or a recursive update that reports emptiness) contributes one alternative per return that can
+// yield want, with the conditions that lead to that return.
+func (c *Ctx) nodeAlts(v ssa.Value, want bool, rebase ssa.Value, isNode func(types.Type) bool, depth int) [][]nodeTest {
+	ctrl := func(b *ssa.BasicBlock, rb ssa.Value, d int) [][]nodeTest {
+		alts := [][]nodeTest{nil}
+		for _, cc := range controllingConds(b, nil) {
+			alts = crossAlts(alts, c.nodeAlts(cc.cond, cc.pol, rb, isNode, d))
+		}
+		return alts
+	}
+	switch x := v.(type) {
+	case *ssa.Const:
+		if x.Value != nil && x.Value.Kind() == constant.Bool {
+			if constant.BoolVal(x.Value) == want {
+				return [][]nodeTest{nil}
+			}
+			return nil
+		}
+	case *ssa.UnOp:
+		if x.Op == token.NOT {
+			return c.nodeAlts(x.X, !want, rebase, isNode, depth)
+		}
+	case *ssa.Phi:
+		var out [][]nodeTest
+		for i, e := range x.Edges {
+			if i >= len(x.Block().Preds) {
+				break
+			}
+			ea := c.nodeAlts(e, want, rebase, isNode, depth)
+			if len(ea) == 0 {
+				continue
+			}
+			out = append(out, crossAlts(ea, ctrlEdge(c, x.Block().Preds[i], x.Block(), rebase, isNode, depth))...)
+		}
+		return out
+	case *ssa.Call:
+		g := x.Call.StaticCallee()
+		if depth > 0 && g != nil && g.Pkg != nil && c.P.IsModPkg(g.Pkg.Pkg) && g.Signature.Recv() != nil && isNode(g.Signature.Recv().Type()) && len(x.Call.Args) > 0 && g.Signature.Results().Len() == 1 {
+			if bt, isB := g.Signature.Results().At(0).Type().Underlying().(*types.Basic); isB && bt.Kind() == types.Bool {
+				rb := x.Call.Args[0]
+				if rebase != nil {
+					if p, isP := core.Strip(rb).(*ssa.Parameter); isP && paramIdx(p) == 0 {
+						rb = rebase
+					}
+				}
+				var out [][]nodeTest
+				for _, bb := range g.Blocks {
+					if r, ok := bb.Instrs[len(bb.Instrs)-1].(*ssa.Return); ok && len(r.Results) == 1 {
+						ra := c.nodeAlts(r.Results[0], want, rb, isNode, depth-1)
+						if len(ra) == 0 {
+							continue
+						}
+						out = append(out, crossAlts(ra, ctrl(bb, rb, depth-1))...)
+					}
+				}
+				return out
+			}
+		}
+	}
+	// an elementary test (or something opaque): one alternative
+	var alt []nodeTest
+	for _, t := range c.nodeTests(v, isNode, 0) {
+		if rebase != nil {
+			if p, isP := core.Strip(t.base).(*ssa.Parameter); isP && paramIdx(p) == 0 {
+				t.base = rebase
+			}
+		}
+		alt = append(alt, t)
+	}
+	return [][]nodeTest{alt}
+}
+
+// ctrlEdge: the tests made on the way to taking the edge pred -> blk (controlling conditions of pred, plus pred's own branch).
+func ctrlEdge(c *Ctx, pred, blk *ssa.BasicBlock, rebase ssa.Value, isNode func(types.Type) bool, depth int) [][]nodeTest {
+	alts := [][]nodeTest{nil}
+	for _, cc := range controllingConds(pred, nil) {
+		alts = crossAlts(alts, c.nodeAlts(cc.cond, cc.pol, rebase, isNode, depth))
+	}
+	if iff, ok := pred.Instrs[len(pred.Instrs)-1].(*ssa.If); ok && len(pred.Succs) == 2 && pred.Succs[0] != pred.Succs[1] {
+		alts = crossAlts(alts, c.nodeAlts(iff.Cond, pred.Succs[0] == blk, rebase, isNode, depth))
+	}
+	return alts
 }
